@@ -22,6 +22,13 @@
  *     "need more data"), so its reference is the one-call callback sequence
  *     without empty frames, truncated to max_lines lines per frame as
  *     documented.
+ *     Streams: built with the library's own multiplexer - one-packet frames,
+ *     a frame split over two packets, foreign stream ids / PIDs (short, longer
+ *     than the lookahead, padding, a rejected private_stream_1 packet,
+ *     adaptation-only and repeated TS packets), stuffing-only packet, variable
+ *     length data units, 368 and 1472 byte packets, a stream with garbage and
+ *     a truncated packet; thorough adds 114 mutated copies of the 3x1 streams
+ *     (one per field class of the second packet x 4 damage kinds).
  * (b) damage: every byte position of the packets of frames 0..5 of valid
  *     9-frame PES / TS streams x every damage kind; fed whole, in 1-byte
  *     buffers (thorough: also 2,7,47,188,189) and through the coroutine.
@@ -31,9 +38,21 @@
  *     exactly as sent ("all but at most the first frame after the damage").
  *     Frames fa-1, fa..fb and fb+1 are not compared (a frame is only flushed
  *     by the start of the next one, so fa-1 is still inside the demux when the
- *     damage arrives; the property text does not protect it).  Frames
- *     0..fa-2 must be delivered first (they are flushed before the damaged
- *     bytes are looked at).
+ *     damage arrives; the property text does not protect it).  What the
+ *     undamaged run delivers of frames 0..fa-2 must come first (flushed before
+ *     the damaged bytes are looked at).
+ *     A violation key names the symptom (demanded frame missing / delivered
+ *     with a wrong PTS or foreign lines) and a class of the damaged INPUT that
+ *     is computed from the bytes alone (see input_class()), not the field that
+ *     was hit: one cause shows up at many fields.  The field goes into the
+ *     detail text.
+ *
+ * The start of a TS stream is treated like the situation after damage (the
+ * demux is not synchronised): for the intact-stream sanity check only frames
+ * F2.. are demanded there.  PES streams must come out exactly as sent.
+ *
+ * Case indices do not depend on the tier (replay files do not record it): the
+ * quick tier returns immediately from cases that only the thorough tier runs.
  *
  * Deviations from DESIGN.md C07:
  *  - E2 is done with an own explicit-state loop inside one pool case per
@@ -898,8 +917,10 @@ struct h_run { int n; uint64_t a, b; struct h_frame f[LOGMAX]; };
  * fb = last frame touched).  PES: somewhere between the start of the damaged packet and the packet of frame
  * fb+2 there is a start code 00 00 01 + stream_id >= 0xBC which is not an intact packet's and whose
  * PES_packet_length reaches beyond the start of that packet.  TS: stepping 188 bytes at a time from the start of
- * the damaged TS packet one meets a 0x47 that is not the start of an intact packet before meeting a byte that is
- * not 0x47 or being aligned with the intact packets again. */
+ * the damaged TS packet one (1) arrives at the start of an intact packet: grid intact; (2) meets a 0x47 that is
+ * not the start of an intact packet: phantom sync_byte; (3) meets another byte at position gl: grid broken - and
+ * then either the first intact packet at or after gl starts (mod 188) within 9 bytes of gl, i.e. lies entirely in
+ * a 197-byte sync search window, and is a complete PES packet, or not. */
 static const char *input_class(const struct h_stream *st, const uint8_t *d, size_t dn, size_t lo, size_t hi, int fb)
 {
         long shift = (long) dn - (long) st->n;
@@ -921,14 +942,29 @@ static const char *input_class(const struct h_stream *st, const uint8_t *d, size
                 }
                 return "";
         }
-        for (size_t g = st->pk[i0].lo + 188; g < dn; g += 188) {
+        /* TS: walk the 188-byte grid that starts at the damaged packet's sync_byte. */
+        size_t gl = 0; int lost = 0;
+        for (size_t g = st->pk[i0].lo; g < dn; g += 188) {
                 int intact = 0;
                 for (int i = 0; i < st->npk; i++) if (st->pk[i].lo >= hi && st->pk[i].lo + shift == (long) g) intact = 1;
-                if (intact) return "";
-                if (d[g] != 0x47) return "";
-                return "; payload byte 0x47 188 bytes after the damaged packet's sync_byte";
+                if (intact) return "; the 188-byte TS packet grid stays intact";
+                if (d[g] != 0x47) { gl = g; lost = 1; break; }        /* an in-sync demultiplexer notices here */
+                if (g > st->pk[i0].lo) return "; payload byte 0x47 188 bytes after the damaged packet's sync_byte";
         }
-        return "";
+        if (!lost) return "; the 188-byte TS packet grid stays intact";
+        /* The sync_byte search looks at 197 bytes from gl on, then 188 further each time.  First intact packet
+         * at or after gl: does it lie entirely in such a window, and is it a whole PES packet? */
+        for (int i = 0; i < st->npk; i++) {
+                if (st->pk[i].lo < hi) continue;
+                size_t sp = st->pk[i].lo + shift;
+                if (sp < gl) continue;
+                int first = st->b[st->pk[i].lo + 1] & 0x40;
+                int last = i + 1 == st->npk || st->pk[i + 1].frame != st->pk[i].frame || (st->b[st->pk[i + 1].lo + 1] & 0x40);
+                if ((sp - gl) % 188 <= 9 && first && last)
+                        return "; grid broken, next intact packet is a whole PES packet inside the sync search window";
+                break;
+        }
+        return "; the damage breaks the 188-byte TS packet grid";
 }
 
 static void run_stream(const struct h_stream *st, const uint8_t *d, size_t n, int iface, size_t chunk, struct h_run *out)
@@ -1019,11 +1055,15 @@ static void damage_case(uint64_t idx, void *arg)
                                                             && !memcmp(whole.f[j].l[b].data, st->sent[r].l[a].data, st->sent[r].l[a].len)) hit++;
                                                 if (hit == st->sent[r].n) altered = 1;
                                         }
-                                        const char *sym = r > nlast ? "out of place" : altered ? "has a wrong PTS or foreign lines" : "missing";
+                                        const char *sym = r > nlast ? "out of place" : altered ? "altered (PTS or lines)" : "missing";
                                         snprintf(key, sizeof key, "damage %s: frame after the first one following the damage %s%s", frs, sym,
                                                  input_class(st, buf, dn, lo, hi, fb));
                                         mc_violation(key, "%s at %s: sent F0..F%d (+1 flushing frame), damage touches F%d..F%d, so F%d..F%d must be delivered; delivered:%s",
                                                      where, cls, nlast, fa, fb, need0, nlast, got);
+                                        if (mc_replaying) {
+                                                for (int j = 0; j < whole.n; j++) fprintf(stderr, "replay:   delivered %d: %s\n", j, frame_str(&whole.f[j]));
+                                                for (int q = need0; q <= nlast; q++) fprintf(stderr, "replay:   demanded F%d: %s\n", q, frame_str(&st->sent[q]));
+                                        }
                                 }
                         }
                         /* frames the undamaged run has flushed before the damaged bytes arrive */
@@ -1091,7 +1131,7 @@ static void damage_case(uint64_t idx, void *arg)
 int main(int argc, char **argv)
 {
         mc_init(argc, argv, "C07");
-        mc_set_budget(110, 1500);
+        mc_set_budget(120, 1200);
         mc_meta("level", "model_checking");
         mc_meta("technique", "explicit-state search with state merging over all partitions of a stream into feed/coroutine calls on the real demultiplexer (snapshot of the flat context, dead bytes poisoned, canonical hashing); fault enumeration at every byte for the recovery clause");
         mc_meta("rule", "(a) node = (stream position, canonical demux context, count+hash of frames delivered); one transition per node and chunk length 1..n-pos, chunk in an exactly sized heap block; a (stream, interface) search is non-trivial when its one-call run delivers >= 2 frames and is counted as distinct when all partitions agree. (b) one case per (base stream, byte position, damage kind) that changes the stream, each run whole / in small buffers / through the coroutine; distinct = distinct damaged byte streams");
@@ -1102,28 +1142,6 @@ int main(int argc, char **argv)
         build_streams();
         for (int i = 0; i < NST; i++) if (ST[i].n == 0) h_die("empty stream");
 
-        if (getenv("C07_DUMP")) {
-                static struct h_ref one;
-                for (int i = 0; i < NST + NBASE; i++) {
-                        struct h_stream *st = i < NST ? &ST[i] : &BASE[i - NST];
-                        one_call(st->b, st->n, st->ts, &one);
-                        printf("%s n=%zu sent=%d delivered=%d\n", st->name, st->n, st->nsent, one.n);
-                        for (int k = 0; k < one.n; k++) printf("   %d %s %s\n", k, frame_str(&one.f[k]), k < st->nsent && frame_eq(&one.f[k], &st->sent[k]) ? "=sent" : "!=sent");
-                }
-                return 0;
-        }
-        if (getenv("C07_DMG")) {
-                int bs, ki, chunk = 0; size_t pos; sscanf(getenv("C07_DMG"), "%d,%zu,%d,%d", &bs, &pos, &ki, &chunk);
-                struct h_stream *st = &BASE[bs]; uint8_t *buf = malloc(st->n + 512); size_t lo, hi;
-                size_t dn = apply_damage(st, pos, &kinds_all[ki], buf, &lo, &hi);
-                printf("%s kind=%s pos=%zu -> n=%zu lo=%zu hi=%zu class=%s\n", st->name, kinds_all[ki].name, pos, dn, lo, hi, field_class(st, lo));
-                vbi_dvb_demux *dx = dx_new(st->ts, IF_FEED);
-                vbi_dvb_demux_set_log_fn(dx, -1, vbi_log_on_stderr, NULL);
-                rec_reset(1);
-                if (!chunk) run_chunk(dx, IF_FEED, buf, dn); else for (size_t p = 0; p < dn; p += chunk) run_chunk(dx, IF_FEED, buf + p, dn - p < (size_t) chunk ? dn - p : chunk);
-                for (int k = 0; k < R.nlog; k++) { int m = -1; for (int q = 0; q < st->nsent; q++) if (frame_eq(&R.frames[k], &st->sent[q])) m = q; printf("  %d: F%d %s\n", k, m, frame_str(&R.frames[k])); }
-                return 0;
-        }
         /* (a)  The case list is the same in both tiers (a replay file does not record the tier);
          * the quick tier skips the cases that are not selected. */
         static struct h_pcase pcs[MAXSTREAMS * NIFACE]; int npc = 0;
@@ -1151,7 +1169,7 @@ int main(int argc, char **argv)
                         nb, mc_tier == MC_THOROUGH ? NKINDS_ALL : NKINDS_QUICK, mc_tier == MC_THOROUGH ? "1/2/7/47/188/189-byte" : "1-byte");
                 if (nvar) mc_note("(a) includes %d mutated copies", nvar);
         }
-        mc_pool("partition", (uint64_t) npc, partition_case, pcs, 600);
+        mc_pool("partition", (uint64_t) npc, partition_case, pcs, mc_tier == MC_THOROUGH ? 400 : 150);
 
         /* (b) */
         static int nblk[4]; uint64_t total = 0;
@@ -1159,6 +1177,6 @@ int main(int argc, char **argv)
                 size_t plimit = 0; for (int i = 0; i < BASE[s].npk; i++) if (BASE[s].pk[i].frame <= 5) plimit = BASE[s].pk[i].hi;
                 nblk[s] = (plimit + DMG_BLOCK - 1) / DMG_BLOCK; total += nblk[s];
         }
-        mc_pool("damage", total * NKINDS_ALL, damage_case, nblk, 120);
+        mc_pool("damage", total * NKINDS_ALL, damage_case, nblk, 40);
         return mc_finish();
 }
